@@ -151,15 +151,12 @@ func arrayHasSuffix(suffix rel.Value, subject rel.Array) (rel.Value, error) {
 
 	subjectVals := subject.Values()
 	suffixVals := suffixArray.Values()
-	suffixOffset := suffixArray.Count() - 1
-
-	for _, val := range subjectVals[subject.Count()-1:] {
-		if suffixOffset > -1 && val.Equal(suffixVals[suffixOffset]) {
-			suffixOffset--
-			if suffixOffset == -1 {
-				break
-			}
-		} else {
+	start := len(subjectVals) - len(suffixVals)
+	if start < 0 {
+		return rel.NewBool(false), nil
+	}
+	for i, val := range suffixVals {
+		if !subjectVals[start+i].Equal(val) {
 			return rel.NewBool(false), nil
 		}
 	}
